@@ -1,5 +1,5 @@
 import McpModel.Base.Proto
-import McpModel.Bearer.Model
+import McpModel.Bearer.Monitor
 /-!
 Driver for E10 (C14).  One record = one request through the real `RequireBearerToken` closure.
 
@@ -21,8 +21,13 @@ observation:
 The final handler of the harness answers 299 with body "inner"; between two middlewares sits a probe
 that only records what it finds in the request context.
 
-The model line is `Bearer.serve` rendered; the monitor is the property itself, written with literal
-statuses and names, independent of the regenerated constants and of `Bearer.verify`.
+This file is the STRING LAYER only: token parser (`parseReq`, `parseObs`, incl. reading a
+`WWW-Authenticate` value into its auth-params), renderer (`renderObs`) and clause texts (`Clause.text`).
+The model line is `Bearer.obsOf` (Monitor.lean: `visits`/`stack`/`sentBy`) rendered; the monitor is
+`Bearer.monitor` (Monitor.lean), bridged to the model by Bridge.lean (`monitor_accepts_model`) and to
+the property text by Sound.lean (`sound_<clause>`, `monitor_complete`).  The string layer is checked at
+run time on every record: the model's observation must survive rendering and parsing
+(`LIBDISC render/parse` otherwise).
 -/
 namespace Bearer
 open Proto
@@ -40,14 +45,11 @@ def xs (s : String) : String := "x" ++ stringToHex s
 
 def xsList (l : List String) : String := if l.isEmpty then "-" else ",".intercalate (l.map xs)
 
-structure Req where
-  hdr : List Char
-  layers : List (Layer String String)   -- outermost first; a layer's info carries the tag `L<k>`
-  ctx : Ctx String String               -- the incoming request context (tag `up`)
+/-! ### Parsing the op tokens into a `Req` -/
 
 /-- One middleware: the keys `ve vm vi gs ex op rm rs am sk now`, with suffix `sfx` ("" for the
 outermost, ".k" for the k-th behind it).  `floor` is the instant the previous verifier returned. -/
-def parseLayer (toks : List String) (sfx tag : String) (floor : Int) : Option (Layer String String) := do
+def parseScript (toks : List String) (sfx : String) (floor : Int) : Option Script := do
   let ve ← kv toks ("ve" ++ sfx)
   let vm ← (← kv toks ("vm" ++ sfx)) |> unx
   let vi ← kv toks ("vi" ++ sfx)
@@ -65,17 +67,17 @@ def parseLayer (toks : List String) (sfx tag : String) (floor : Int) : Option (L
     else if ve.length == 2 then
       some (some { isInvalid := ve.startsWith "1", isOAuth := ve.endsWith "1", msg := vm })
     else none
-  let info : Option (Info String String) := if vi == "1" then some { scopes := gs, exp := exp, extra := tag } else none
+  let info : Option (List String × Option Int) := if vi == "1" then some (gs, exp) else none
   let opts : Option (Opts String) :=
     if op == "n" then none else some { rm := rm, scopes := rs, allowMissing := am == "1", skew := sk }
   -- the scripted verifier sleeps until `now` after the request started (not at all if that is past)
-  return { verifier := fun _ _ => { err := err, info := info }, opts := opts, now := max now floor }
+  return { err := err, info := info, opts := opts, now := max now floor }
 
-def parseLayers (toks : List String) : Nat → Nat → Int → Option (List (Layer String String))
+def parseScripts (toks : List String) : Nat → Nat → Int → Option (List Script)
   | 0, _, _ => some []
   | n + 1, k, floor => do
-    let l ← parseLayer toks (if k == 0 then "" else s!".{k}") s!"L{k}" floor
-    let rest ← parseLayers toks n (k + 1) l.now
+    let l ← parseScript toks (if k == 0 then "" else s!".{k}") floor
+    let rest ← parseScripts toks n (k + 1) l.now
     return l :: rest
 
 def parseReq (toks : List String) : Option Req := do
@@ -84,16 +86,18 @@ def parseReq (toks : List String) : Option Req := do
     | none => some 1
     | some v => v.toNat?
   if nl == 0 ∨ nl > 8 then none
-  let layers ← parseLayers toks nl 0 0
-  let ctx : Ctx String String ←
+  let scripts ← parseScripts toks nl 0 0
+  let up : Option (List String × Option Int) ←
     match kv toks "up" with
     | some "1" => do
       let ugs ← (← kv toks "ugs") |> unxList
       let uex ← kv toks "uex"
       let exp : Option Int ← if uex == "z" then some none else uex.toInt?.map some
-      some [{ scopes := ugs, exp := exp, extra := "up" }]
-    | _ => some []
-  return { hdr := (h.headD "").toList, layers := layers, ctx := ctx }
+      some (some (ugs, exp))
+    | _ => some none
+  return Req.ofScript (h.headD "").toList scripts up
+
+/-! ### `WWW-Authenticate` values -/
 
 /-- `strconv.Quote` (what `%q` prints) for the strings the harness generates: ASCII, plus printable
 non-ASCII runes which pass unchanged. -/
@@ -108,178 +112,179 @@ def goQuote (s : String) : String :=
     else String.singleton c
   "\"" ++ String.join (s.toList.map esc) ++ "\""
 
-def renderParam : Param String → String
-  | .resourceMetadata u => Generated.Bearer.paramRM ++ "=" ++ goQuote u
-  | .scope ss => Generated.Bearer.paramScope ++ "=" ++ goQuote (" ".intercalate ss)
+def hexVal (c : Char) : Option Nat :=
+  if '0' ≤ c ∧ c ≤ '9' then some (c.toNat - '0'.toNat)
+  else if 'a' ≤ c ∧ c ≤ 'f' then some (c.toNat - 'a'.toNat + 10)
+  else if 'A' ≤ c ∧ c ≤ 'F' then some (c.toNat - 'A'.toNat + 10)
+  else none
 
-def renderChallenge (ps : List (Param String)) : String := "Bearer " ++ ", ".intercalate (ps.map renderParam)
+def hexNum (cs : List Char) : Option Nat :=
+  cs.foldlM (fun acc c => (hexVal c).map fun d => acc * 16 + d) 0
+
+/-- The inverse of `%q` from just behind the opening quote: the value and what follows the closing
+quote.  Escapes: `\a \b \f \n \r \t \v \\ \" \xHH \uHHHH \UHHHHHHHH`. -/
+def goUnquote : List Char → List Char → Option (List Char × List Char)
+  | [], _ => none
+  | '"' :: rest, acc => some (acc.reverse, rest)
+  | '\\' :: 'x' :: a :: b :: rest, acc =>
+    match hexNum [a, b] with
+    | some n => goUnquote rest (Char.ofNat n :: acc)
+    | none => none
+  | '\\' :: 'u' :: a :: b :: c :: d :: rest, acc =>
+    match hexNum [a, b, c, d] with
+    | some n => goUnquote rest (Char.ofNat n :: acc)
+    | none => none
+  | '\\' :: 'U' :: a :: b :: c :: d :: e :: f :: g :: h :: rest, acc =>
+    match hexNum [a, b, c, d, e, f, g, h] with
+    | some n => goUnquote rest (Char.ofNat n :: acc)
+    | none => none
+  | '\\' :: c :: rest, acc =>
+    let r : Option Char :=
+      if c == 'a' then some '\x07' else if c == 'b' then some '\x08' else if c == 'f' then some '\x0c'
+      else if c == 'n' then some '\n' else if c == 'r' then some '\r' else if c == 't' then some '\t'
+      else if c == 'v' then some '\x0b' else if c == '\\' then some '\\' else if c == '"' then some '"'
+      else none
+    match r with
+    | some x => goUnquote rest (x :: acc)
+    | none => none
+  | c :: rest, acc => goUnquote rest (c :: acc)
+
+def isNameChar (c : Char) : Bool := c != '=' && c != ',' && c != ' ' && c != '\t' && c != '"'
+
+def skipBlank (cs : List Char) : List Char := cs.dropWhile fun c => c == ' ' || c == '\t'
+
+/-- The auth-params `name="value"` (or `name=token`), separated by commas and optional blanks.
+`fuel` bounds the number of parameters. -/
+def parseParams : Nat → List Char → Option (List (String × String))
+  | 0, _ => none
+  | fuel + 1, cs =>
+    let cs := skipBlank cs
+    let name := cs.takeWhile isNameChar
+    if name.isEmpty then none else
+    match cs.dropWhile isNameChar with
+    | '=' :: '"' :: rest =>
+      match goUnquote rest [] with
+      | none => none
+      | some (v, rest) =>
+        match skipBlank rest with
+        | [] => some [(String.ofList name, String.ofList v)]
+        | ',' :: more => (parseParams fuel more).map ((String.ofList name, String.ofList v) :: ·)
+        | _ => none
+    | '=' :: rest =>
+      let v := rest.takeWhile isNameChar
+      match skipBlank (rest.dropWhile isNameChar) with
+      | [] => some [(String.ofList name, String.ofList v)]
+      | ',' :: more => (parseParams fuel more).map ((String.ofList name, String.ofList v) :: ·)
+      | _ => none
+    | _ => none
+
+/-- Read one `WWW-Authenticate` value. -/
+def parseWVal (s : String) : WVal :=
+  if s.startsWith "Bearer " then
+    let cs := (s.drop 7).toString.toList
+    match parseParams (cs.length + 1) cs with
+    | some ps => .chal ps
+    | none => .raw s
+  else .raw s
+
+def renderWVal : WVal → String
+  | .chal ps => "Bearer " ++ ", ".intercalate (ps.map fun p => p.1 ++ "=" ++ goQuote p.2)
+  | .raw s => s
+
+/-! ### The observation -/
 
 def csv (l : List String) : String := ",".intercalate l
 
-def modelObs (r : Req) : String :=
-  let vs := visits r.hdr r.layers r.ctx
-  let n := r.layers.length
-  let pad (l : List String) (d : String) : List String := l ++ List.replicate (n - l.length) d
-  let infos := pad (vs.map fun v => match v.resp with
-    | .next info => info.extra
-    | .error _ _ _ => "-") "-"
-  let vcs := pad (vs.map fun v => if v.token.isSome then "1" else "0") "0"
-  let vts := pad (vs.map fun v => match v.token with
+def renderTag : Tag → String
+  | .L k => s!"L{k}"
+  | .up => "up"
+
+def renderSeen : Seen → String
+  | .notRun => "-"
+  | .found t => renderTag t
+  | .nil => "nil"
+  | .changed w => "changed" ++ w
+  | .other s => s
+
+def parseSeen (s : String) : Seen :=
+  if s == "-" then .notRun
+  else if s == "nil" then .nil
+  else if s == "up" then .found .up
+  else if s.startsWith "changed" then .changed (s.drop 7).toString
+  else if s.startsWith "L" then
+    match (s.drop 1).toString.toNat? with
+    | some k => .found (.L k)
+    | none => .other s
+  else .other s
+
+def renderObs (o : Obs) : String :=
+  let infos := o.layers.map fun l => renderSeen l.seen
+  let vcs := o.layers.map fun l => toString l.calls
+  let vts := o.layers.map fun l => match l.token with
     | some t => xs (String.ofList t)
-    | none => "-") "-"
-  let mid := s!"info={csv infos} vc={csv vcs} vt={csv vts}"
-  match stack r.hdr r.layers r.ctx with
-  | .handler _ => s!"st=299 ran=1 {mid} www=- late=- body={xs "inner"}"
-  | .error code msg ch =>
-    -- the response as sent (`sentBy`), not the header map
-    match sentBy (rejectCalls code msg ch) with
-    | some sent => s!"st={sent.status} ran=0 {mid} www={xsList (sent.challenges.map renderChallenge)} late=- body={xs sent.body}"
-    | none => "nothing-written"
-
-/-! ### The property monitor -/
-
-inductive Want where
-  | pass
-  | reject (code : Nat) (cause : String)
-
-/-- The property's credential clause, literally. -/
-def specCredential (hdr : List Char) : Option (List Char) :=
-  match fields hdr with
-  | [sch, tok] => if lowerAscii sch == "bearer".toList then some tok else none
-  | _ => none
-
-/-- The property's verdict: admitted iff everything checks out, otherwise the status of the first
-failing cause. -/
-def specWant (i : Input String String) : Want :=
-  match specCredential i.header with
-  | none => .reject 401 "a missing or ill-formed credential"
-  | some tok =>
-    let r := i.verifier tok
-    match r.err with
-    | some e =>
-      if e.isInvalid then .reject 401 "a verifier error that is an invalid-token error"
-      else if e.isOAuth then .reject 400 "a verifier error that is an OAuth error"
-      else .reject 500 "a verifier error of another kind"
-    | none =>
-      match r.info with
-      | none => .reject 500 "a verifier that returns neither info nor error"
-      | some inf =>
-        let o : Opts String := match i.opts with
-          | some o => o
-          | none => { rm := "", scopes := [], allowMissing := false, skew := 0 }
-        if !(o.scopes.all fun s => inf.scopes.elem s) then .reject 403 "a required scope that was not granted"
-        else match inf.exp with
-          | none => if o.allowMissing then .pass else .reject 401 "a missing expiration that is not allowed"
-          | some e => if e + o.skew < i.now then .reject 401 "an expiration that elapsed beyond the skew" else .pass
-
-def isInfix (p s : List Char) : Bool :=
-  match s with
-  | [] => p.isEmpty
-  | _ :: t => p.isPrefixOf s || isInfix p t
-
-/-- What the harness saw of one middleware: what the handler directly behind it found in the
-request context (`-`: that handler did not run), how often its verifier was called, with which token. -/
-structure LObs where
-  info : String
-  vc : String
-  vt : String
-
-/-- The challenge clause, on the `WWW-Authenticate` values of the response AS SENT (`www`); `late`
-are the values found in the writer's header map afterwards that were not sent. -/
-def challengeClause (opts : Option (Opts String)) (admitted : Bool) (st www late : String) : Option String :=
-  let wl := (unxList www).getD ["?"]
-  let ll := (unxList late).getD ["?"]
-  let expectParams : List String :=
-    if !admitted ∧ (st == "401" ∨ st == "403") then
-      match opts with
-      | none => []
-      | some op =>
-        (if op.rm ≠ "" then ["resource_metadata=" ++ goQuote op.rm] else []) ++
-        (if op.scopes ≠ [] then ["scope=" ++ goQuote (" ".intercalate op.scopes)] else [])
-    else []
-  match expectParams with
-  | [] =>
-    if !wl.isEmpty then
-      some s!"challenge_on_401_403: a WWW-Authenticate header although the status is {st}, the options are nil or nothing is configured"
-    else if !ll.isEmpty then
-      some s!"challenge_on_401_403: a WWW-Authenticate header put into the header map (after the response was written) although the status is {st}, the options are nil or nothing is configured"
-    else none
-  | ps =>
-    match wl with
-    | [w] =>
-      if !ll.isEmpty then some s!"challenge_on_401_403: a further WWW-Authenticate value was added to the header map after the {st} response had been written"
-      else if w.startsWith "Bearer " ∧ ps.all (fun p => isInfix p.toList w.toList) ∧
-         (opts.any (fun op => op.rm == "") → !isInfix "resource_metadata".toList w.toList) ∧
-         (opts.any (fun op => op.scopes.isEmpty) → !isInfix "scope=".toList w.toList) then none
-      else some "challenge_on_401_403: the challenge does not carry exactly the configured resource_metadata / scope parameters"
-    | [] =>
-      if ll.isEmpty then some s!"challenge_on_401_403: expected one WWW-Authenticate value on {st}, found 0"
-      else some s!"challenge_on_401_403: the {st} response as sent carries no WWW-Authenticate challenge: it was added to the header map only after the status line and headers had been written"
-    | _ => some s!"challenge_on_401_403: expected one WWW-Authenticate value on {st}, found {wl.length}"
-
-/-- The property, middleware by middleware (outermost first).  `k` is the index of the head of the
-list, `n` the number of stacked middlewares, `head` what `TokenInfoFromContext` yields on the
-request entering this middleware. -/
-def walk (n : Nat) (hdr : List Char) (st www late : String) :
-    Nat → List (Layer String String × LObs) → Ctx String String → Option String
-  | _, [], _ => none
-  | k, (l, o) :: rest, ctx =>
-    let at_ := if n ≤ 1 then "" else s!" [middleware {k + 1} of {n}, outermost first]"
-    let i := l.input hdr ctx
-    let called : Option String :=
-      match specCredential hdr with
-      | none => if o.vc == "0" then none else some s!"verifier_called_iff: verifier consulted without a well-formed credential{at_}"
-      | some tok =>
-        if o.vc == "1" ∧ o.vt == xs (String.ofList tok) then none
-        else some s!"verifier_called_iff: verifier not consulted exactly once with the credential's token{at_}"
-    match specWant i with
-    | .pass =>
-      let mine := s!"L{k}"
-      if o.info == "-" then
-        some s!"admit_iff: handler did not run (status {st}) although credential, verifier, scopes and expiry all check out{at_}"
-      else if o.info != mine then
-        let what :=
-          if o.info == "up" then "the TokenInfo that was already in the incoming request's context"
-          else if o.info == "nil" then "no TokenInfo"
-          else if o.info.startsWith "L" then s!"the TokenInfo of an enclosing middleware's verifier ({o.info})"
-          else if o.info.startsWith "changed" then "a TokenInfo whose contents were altered"
-          else s!"'{o.info}'"
-        some s!"handler_sees_verifier_info: the handler found {what} in the request context, not the token info its own middleware's verifier returned for this request unchanged{at_}"
-      else
-        let here : Option String :=
-          if rest.isEmpty then challengeClause l.opts true st www late else none
-        here <|> called <|>
-          (match (l.verifier ctx ((specCredential hdr).getD [])).info with
-           | some inf => walk n hdr st www late (k + 1) rest (inf :: ctx)
-           | none => none)
-    | .reject code cause =>
-      let verdict : Option String :=
-        if o.info != "-" then some s!"admit_iff: handler ran despite {cause}{at_}"
-        else if st == toString code then none
-        else some s!"status_by_cause: {cause} must be answered {code}, got {st}{at_}"
-      let behind : Option String :=
-        if rest.all (fun p => p.2.vc == "0" ∧ p.2.info == "-") then none
-        else some s!"admit_iff: a middleware behind the rejecting one was reached{at_}"
-      verdict <|> challengeClause l.opts false st www late <|> called <|> behind
+    | none => "-"
+  s!"st={o.status} ran={o.ran} info={csv infos} vc={csv vcs} vt={csv vts} www={xsList (o.www.map renderWVal)} late={xsList (o.late.map renderWVal)} body={xs o.body}"
 
 def splitObs (s : String) : List String := if s == "" then [] else s.splitOn ","
 
-def monitor (r : Req) (impl : String) : Option String :=
+def parseObs (impl : String) : Option Obs := do
   let o := words impl
-  match kv o "st", kv o "ran", kv o "info", kv o "vc", kv o "vt", kv o "www", kv o "late" with
-  | some st, some ran, some info, some vc, some vt, some www, some late =>
-    let infos := splitObs info
-    let vcs := splitObs vc
-    let vts := splitObs vt
-    let n := r.layers.length
-    if infos.length ≠ n ∨ vcs.length ≠ n ∨ vts.length ≠ n then some s!"bad-observation: {impl}"
-    else
-      let obs : List LObs := (infos.zip (vcs.zip vts)).map fun (a, b, c) => { info := a, vc := b, vt := c }
-      let lastRan := (infos.getLast?.getD "-") != "-"
-      if (ran == "1") != lastRan ∨ (ran != "0" ∧ ran != "1") then
-        some s!"admit_iff: the final handler ran {ran} time(s), inconsistent with what it recorded"
-      else walk n r.hdr st www late 0 (r.layers.zip obs) r.ctx
-  | _, _, _, _, _, _, _ => some s!"bad-observation: {impl}"
+  let st ← (← kv o "st").toNat?
+  let ran ← (← kv o "ran").toNat?
+  let infos := splitObs (← kv o "info")
+  let vcs ← (splitObs (← kv o "vc")).mapM (·.toNat?)
+  let vts ← (splitObs (← kv o "vt")).mapM fun t =>
+    if t == "-" then some none else (unx t).map fun s => some s.toList
+  let www ← (← kv o "www") |> unxList
+  let late ← (← kv o "late") |> unxList
+  let body := ((kv o "body").bind unx).getD ""
+  if infos.length ≠ vcs.length ∨ infos.length ≠ vts.length then none
+  let layers : List LObs := (infos.zip (vcs.zip vts)).map fun (a, b, c) => { seen := parseSeen a, calls := b, token := c }
+  return { status := st, ran := ran, layers := layers, www := www.map parseWVal, late := late.map parseWVal, body := body }
+
+/-! ### Clause texts (the monitor itself is Monitor.lean) -/
+
+def Cause.text : Cause → String
+  | .noCredential => "a missing or ill-formed credential"
+  | .invalidToken => "a verifier error that is an invalid-token error"
+  | .oauthError => "a verifier error that is an OAuth error"
+  | .otherError => "a verifier error of another kind"
+  | .nilInfo => "a verifier that returns neither info nor error"
+  | .scope => "a required scope that was not granted"
+  | .missingExp => "a missing expiration that is not allowed"
+  | .expired => "an expiration that elapsed beyond the skew"
+
+/-- `n`: the number of stacked middlewares of the record; `impl`: the observation as received. -/
+def Clause.text (n : Nat) (impl : String) (c : Clause) : String :=
+  let at_ (k : Nat) : String := if n ≤ 1 then "" else s!" [middleware {k + 1} of {n}, outermost first]"
+  match c with
+  | .malformed => s!"bad-observation: {impl}"
+  | .ranInconsistent ran => s!"admit_iff: the final handler ran {ran} time(s), inconsistent with what it recorded"
+  | .notRun k st => s!"admit_iff: handler did not run (status {st}) although credential, verifier, scopes and expiry all check out{at_ k}"
+  | .ranDespite k cause => s!"admit_iff: handler ran despite {cause.text}{at_ k}"
+  | .behindReached k => s!"admit_iff: a middleware behind the rejecting one was reached{at_ k}"
+  | .wrongInfo k seen =>
+    let what := match seen with
+      | .found .up => "the TokenInfo that was already in the incoming request's context"
+      | .nil => "no TokenInfo"
+      | .found (.L j) => s!"the TokenInfo of an enclosing middleware's verifier (L{j})"
+      | .changed _ => "a TokenInfo whose contents were altered"
+      | s => s!"'{renderSeen s}'"
+    s!"handler_sees_verifier_info: the handler found {what} in the request context, not the token info its own middleware's verifier returned for this request unchanged{at_ k}"
+  | .wrongStatus k cause st => s!"status_by_cause: {cause.text} must be answered {cause.code}, got {st}{at_ k}"
+  | .calledWithout k => s!"verifier_called_iff: verifier consulted without a well-formed credential{at_ k}"
+  | .notCalledOnce k => s!"verifier_called_iff: verifier not consulted exactly once with the credential's token{at_ k}"
+  | .chalUnexpected st => s!"challenge_on_401_403: a WWW-Authenticate header although the status is {st}, the options are nil or nothing is configured"
+  | .chalUnexpectedLate st => s!"challenge_on_401_403: a WWW-Authenticate header put into the header map (after the response was written) although the status is {st}, the options are nil or nothing is configured"
+  | .chalFurtherLate st => s!"challenge_on_401_403: a further WWW-Authenticate value was added to the header map after the {st} response had been written"
+  | .chalWrong => "challenge_on_401_403: the challenge does not carry exactly the configured resource_metadata / scope parameters"
+  | .chalCount st cnt => s!"challenge_on_401_403: expected one WWW-Authenticate value on {st}, found {cnt}"
+  | .chalLateOnly st => s!"challenge_on_401_403: the {st} response as sent carries no WWW-Authenticate challenge: it was added to the header map only after the status line and headers had been written"
+
+/-- Run-time self-check of the string layer: the model's observation must survive rendering and parsing. -/
+def selfCheck (m : Obs) : Option String :=
+  if parseObs (renderObs m) == some m then none
+  else some "LIBDISC render/parse: the model's observation does not survive the string layer"
 
 def engine : Engine Unit where
   init := ()
@@ -289,7 +294,15 @@ def engine : Engine Unit where
     | "req" :: rest =>
       match parseReq rest with
       | none => ((), { model := "bad-op" })
-      | some r => ((), { model := modelObs r, violated := monitor r impl })
+      | some r =>
+        match obsOf r with
+        | none => ((), { model := "nothing-written", violated := some "LIBDISC the model writes no response" })
+        | some m =>
+          let viol : Option String :=
+            match parseObs impl with
+            | none => some s!"bad-observation: {impl}"
+            | some o => (monitor r o).map (Clause.text r.layers.length impl)
+          ((), { model := renderObs m, violated := viol <|> selfCheck m })
     | _ => ((), { model := "bad-op" })
 
 end Bearer
